@@ -274,11 +274,23 @@ def run(ck: vlib.Check):
             variants.append((rng.choice([63, 63, rng.randrange(1, 64)]), rng.choice([1, 2, 1000]), rng.choice([None, 2]), True))
         if i % 3 == 0:
             variants.append((rng.randrange(1, 64), rng.choice([1, 2, 5]), rng.choice([None, 2]), False))
+        # the same file through the public multi-file entry point (a list of one file), with fewer blocks per batch than the file has;
+        # and as the read that follows a rejected request (invalid sub-detector name) on the same reader
+        if i % 2 == 0 or i == len(files) - 1:
+            variants.append((63, rng.choice([1, 2]), None, "concat"))
+        if i % 4 == 1 or i == len(files) - 1:
+            variants.append((63, rng.choice([1, 1000]), None, "after-rejected"))
         for mask, pb, mw, native in variants:
             subs = None if mask == 0 else [d for k, d in enumerate(G.DETS) if mask >> k & 1]
+            how = native if isinstance(native, str) else None
+            native = native is True
             calls.append({"id": len(calls), "paths": [p], "n_blocks": -1, "pb": pb, "subs": subs, "max_workers": mw,
                           "delay_seed": rng.randrange(1 << 30) if mw != 1 and pb in (1, 2) else None,
                           "native_so": str(abi) if native else None})
+            if how == "concat":
+                calls[-1]["concat"] = True
+            elif how == "after-rejected":
+                calls[-1]["seq"] = ["bad", -1]
             n_native += native
             meta.append((i, mask, pb))
     ck.cov["file_calls_through_working_tree_cpp_via_ctypes"] = n_native
@@ -355,7 +367,7 @@ def run(ck: vlib.Check):
                       "trigger_type": f["run_params"][3], "detector_mask": f["run_params"][4], "beam_type": f["run_params"][5],
                       "beam_energy": f["run_params"][6], "entries": f["entries"], "file_size": 4 * len(w),
                       "data_end": 4 * len(w) - 40, "data_start": 4 * len(G.enc_file_header(f))}
-        if r["outcome"] == "ok":
+        if r["outcome"] == "ok" and not c.get("concat"):       # concatenate_raw exposes no reader
             wrong = {k: (a.get(k), v) for k, v in want_attrs.items() if a.get(k) != v}
             if wrong:
                 d = (d or "") + f" reader attributes differ from the file header: {wrong}"
